@@ -400,7 +400,13 @@ def run_ref(ctx, case):
             peer = H.RefClient(app, ext=decline or (H.offer_string(**deflate_kw(d)) if d is not None else None))
             ok = await peer.handshake(H.segments(len(peer.request), case["hs_segs"], cap=3, bulk=1 << 20))
             if not ok:
-                return ctx.fail("C14.handshake_failed", {"wire": peer.session.wire[:300]})
+                if peer.error and peer.error.startswith("extension response invalid"):
+                    # the 101 carries an extension header no conforming client can accept (invalid / unoffered parameter ...)
+                    return ctx.fail("C14.handshake_extension_response_invalid",
+                                    {"error": peer.error, "offer": peer.request[:300], "response_ext": peer.head.get_all("Sec-WebSocket-Extensions")})
+                return ctx.fail("C14.handshake_failed", {"error": peer.error, "wire": peer.session.wire[:300]})
+            if rec.handler is None:
+                return ctx.fail("C14.open_not_called_after_101", {"wire": peer.session.wire[:200]})
             stream = peer.stream
             tornado_send = lambda v, b: rec.handler.write_message(v, binary=b)
             received = rec.messages
@@ -437,7 +443,11 @@ def run_ref(ctx, case):
             labels.add("deflate_on")
         else:
             labels.add("deflate_off")
-        deflater = dp.deflater(ref_role, level=case["ref"][0], mem_level=case["ref"][1]) if dp else None
+        try:
+            deflater = dp.deflater(ref_role, level=case["ref"][0], mem_level=case["ref"][1]) if dp else None
+        except wsref.RefError as e:
+            # e.g. an agreed window of 8 bits, which no zlib-based endpoint can produce: nothing the offer asked for
+            return ctx.fail("C14.handshake_extension_response_invalid", {"error": str(e), "agreed": dp.as_dict()})
         masks = MaskSource(case["masks"]) if ref_role == "client" else None
 
         sent_in, infos_in, sent_out, pings = [], [], [], []
@@ -579,7 +589,12 @@ def run_pair(ctx, case):
         compare_received(ctx, pair.client.messages(), s2c, [None] * len(s2c), "C14.pair_client_received", detail)
         # strict decode of everything both sides wrote
         ch, cf, sh, sf = pair.split_logs()
-        dp = H.negotiated_deflate(sh)
+        if ch is None or sh is None:
+            return ctx.fail("C14.handshake_failed", {"error": "handshake bytes on the wire are not HTTP heads"})
+        try:
+            dp = H.negotiated_deflate(sh)
+        except wsref.RefError as e:
+            return ctx.fail("C14.handshake_extension_response_invalid", {"error": str(e), "response_ext": sh.get_all("Sec-WebSocket-Extensions")})
         if (dp is not None) != (d is not None):
             ctx.fail("C14.deflate_not_negotiated", {"response_ext": sh.get_all("Sec-WebSocket-Extensions")})
         dc = wsref.decode_all(cf, expect_masked=True, inflater=dp.inflater("client") if dp else None)
@@ -672,8 +687,8 @@ def deflate_grid():
         return {"binary": binary, "content": content, "cuts": list(cuts), "gaps": [], "every_gap": False, "compress": True, "flush": "sync"}
     a = ("rawrep", 3000, b"\x01", 1100)
     b = ("rawrep", 8192, b"\x02", 2500)
-    ops = [("in", msg(a, True)), ("out", msg(a, False)), ("in", msg(a, True, [400])), ("out", msg(a, False)),
-           ("in", msg(b, False)), ("out", msg(b, True))]
+    ops = [("in", msg(a, True)), ("ping_in", b"after a compressed message"), ("out", msg(a, False)), ("in", msg(a, True, [400])),
+           ("ping_in", b"q" * 125), ("out", msg(a, False)), ("in", msg(b, False)), ("ping_in", b""), ("out", msg(b, True))]
     for setup in ("ref_to_server", "ref_to_client"):
         for sw in (None, 9, 12, 15):
             for cw in (None, 9, 12, 15):
